@@ -45,6 +45,9 @@ CLAIMED = {
  "C20": ("sibling agreement of registry key construction (separator, normaliser, kind→map) between registration and lookup on SSA, effect exclusion on the normaliser (no sort / map iteration), dominance of found-edges over callback invocation, fallback discipline, field provenance of MatchInput/UpdateInput, propagation of interpreter settings",
          "Structural reasons why exactly the registered callback is reached and why a miss falls back or fails safely. Which callback runs for a concrete request at run time is not computed.",
          "go/ssa", "DESIGN.md §4 C20"),
+ "C09": ("type-fact analysis (T-GUARD) for every single-result type assertion (tag tests, matchTypes, same-type classes, facts at all call sites, constant-specialised callee results), bounds-fact analysis for every index/slice expression, nil-implies-recorded-error dominance in the parser, natural-loop and call-graph-SCC progress analysis (T-PROG), sentence-count check of the two parser entry points",
+         "Panic-freedom and termination obligations over every function of interpreter and interpreter/language reachable from Language.Match/Update (13 assertions, 58 indexing sites, 12 nil obligations, 59 loops, 8 recursive components), plus the top-level acceptance condition (one sentence, empty rejected). Three indexing sites rest on named assumptions listed in the evidence. Does not decide that every ungrammatical string is rejected by the inner productions, nor stack depth for deeply nested finite inputs.",
+         "go/ssa + VTA call graph; AST nodes and objects are finite acyclic trees", "DESIGN.md §4 C09"),
 }
 
 PENDING = {}
